@@ -11,7 +11,8 @@ RULE = ("generate_mesh on: Voronoi / arc tissues with 0..40 points per interface
         "coordinates, connected sub-tissues (holes, bridges, two-cell tissues), shipped Surface Evolver dumps and skeleton "
         "lattices; ne in 1..12; replace_short_edges on/off; second application compared with the first. distinct = "
         "(source, cells, interfaces, ne, replace_short_edges, contracted interfaces, longest interface); non-trivial = at "
-        "least one interface")
+        "least one interface"
+        ' Added after the seeded rounds: lattice sub-tissues with two-point interfaces, pendant cells (closed interface through one junction, ne >= 3).')
 MIN_DECISIVE = {"quick": 200, "thorough": 3000}
 REQUIRED_COUNTERS = ["post:generate_mesh", "clause:junction", "clause:interface", "clause:cycle", "clause:idempotent",
                      "clause:contracted-midpoint"]
